@@ -305,6 +305,40 @@ func c05PayloadOn(c *ctx, sc schemaSpec, schema *jsonapi.Schema, payload string,
 			nok++
 		}
 	}
+	// what UnmarshalResource returned is the caller's: editing the structure it reports
+	// changes neither the schema nor what the next call returns
+	if key == "" && strings.HasPrefix(results[1].obs, "(OC \"ok\"") {
+		if p, pv := guard(func() {
+			r, err := jsonapi.UnmarshalResource(data, schema)
+			if err != nil {
+				return
+			}
+			if _, isWrapper := r.(*jsonapi.Wrapper); !isWrapper {
+				return // a soft resource's type shares its maps with the schema's by design
+			}
+			rt := r.GetType()
+			for n := range rt.Attrs {
+				rt.RemoveAttr(n)
+			}
+			for n := range rt.Rels {
+				rt.RemoveRel(n)
+			}
+			_ = rt.AddAttr(jsonapi.Attr{Name: "added-to-the-result", Type: jsonapi.AttrTypeInt})
+			am, rm := r.Attrs(), r.Rels()
+			for n := range am {
+				delete(am, n)
+			}
+			for n := range rm {
+				delete(rm, n)
+			}
+			again := c05Call(schema, func() (any, error) { return jsonapi.UnmarshalResource(data, schema) }, obsRes)
+			if again.panicked || again.obs != results[1].obs || again.offSch != "" {
+				key, detail = "result-shares-schema", fmt.Sprintf("after the structure reported by one result was edited, UnmarshalResource of the same payload gives %s (%v %s)", again.obs, again.panicVal, again.offSch)
+			}
+		}); p {
+			key, detail = "result-shares-schema", fmt.Sprint(pv)
+		}
+	}
 	c.count(fmt.Sprintf("valid-json=%v", tree != nil))
 	c.count("how:" + strings.SplitN(how, "+", 2)[0])
 	feature := fmt.Sprintf("%s json=%v ok=%d panic=%d", strings.SplitN(how, "+", 2)[0], tree != nil, nok, npanic)
